@@ -337,7 +337,7 @@ theorem chain_once_ready (pre post : List C13.Op) (ctx r : Nat)
       C13.ranIds (C13.run (C13.run (C13.init .value) pre).1 (.thenOp ctx [] :: post)).2 := by
     simp only [C13.run, C13.ranIds_append, List.mem_append]
     left
-    have := List.mem_of_mem_head? hl
+    have := C07Chain.mem_step_of_mem_core (List.mem_of_mem_head? hl)
     simp only [C13.ranIds, List.mem_filterMap]
     exact ⟨_, this, rfl⟩
   have h3 := List.count_pos_iff.mpr hmem
